@@ -264,6 +264,14 @@ def _keys_not_reinterpreted(ctx, m, fi, rule):
                  '%s:%d' % (m.rel, n.lineno))
 
 
+def _arg_elem(k, ARGS):
+    """k is one element of *args: `for a in args` or `for i, a in enumerate(args)`"""
+    if k[0] == 'iter' and k[1] == ARGS:
+        return True
+    return k[0] == 'proj' and k[1] == 1 and k[2][0] == 'iter' and k[2][1][0] == 'call' and k[2][1][1] == ('lib', 'enumerate') \
+        and k[2][1][2] == (ARGS,) and not k[2][1][3]
+
+
 def rule_S_LOAD_DUMP(ctx, repo):
     m, ci = cache_class(repo)
     # ---------------- load
@@ -306,7 +314,7 @@ def rule_S_LOAD_DUMP(ctx, repo):
                     if good:
                         k, v = d[1][0]
                         rd = [x for x in evs[:i] if x.kind == 'AREAD' and x.val == v]
-                        good = bool(rd) and rd[0].args[1] == k and k[0] == 'iter' and k[1] == ARGS
+                        good = bool(rd) and rd[0].args[1] == k and _arg_elem(k, ARGS)
                     if not good:
                         ok = False
                         why = 'a loaded key is not copied as {arg: archive[arg]} for the same argument'
@@ -362,7 +370,7 @@ def rule_S_LOAD_DUMP(ctx, repo):
                     k, v = d[1][0]
                     rd = [x for x in evs[:i] if x.kind == 'SGET' and x.val == v]
                     has = [x for x in evs[:i] if x.kind == 'SHAS' and x.args[0] == k and x.args[1] == C(True)]
-                    good = bool(rd) and rd[0].args[0] == k and k[0] == 'iter' and k[1] == ARGS and bool(has)
+                    good = bool(rd) and rd[0].args[0] == k and _arg_elem(k, ARGS) and bool(has)
                 if not good:
                     ok = False
                     ctx.fail('S-DUMP', fi.qual, 'per-key dump %s' % render(d)[:60],
@@ -370,7 +378,7 @@ def rule_S_LOAD_DUMP(ctx, repo):
                              '%s:%d' % (m.rel, e.line), render_path(o))
             # conversely: every named key that is resident is written (no "already archived" shortcut decided from cache-side bookkeeping)
             for i, e in enumerate(evs):
-                if e.kind == 'SHAS' and e.args[1] == C(True) and e.args[0][0] == 'iter' and e.args[0][1] == ARGS:
+                if e.kind == 'SHAS' and e.args[1] == C(True) and _arg_elem(e.args[0], ARGS):
                     k = e.args[0]
                     wrote = any(x.kind == 'AUPDATE' and len(x.args) >= 2 and x.args[1][0] == 'dict' and x.args[1][1] and x.args[1][1][0][0] == k for x in evs[i:])
                     if not wrote:
@@ -509,8 +517,28 @@ def rule_S_TOGGLE(ctx, repo):
     sw, ar = last.get('__swap__'), last.get('__archive__')
     kw = init.node.args.kwarg.arg if init.node.args.kwarg else None
     ok = sw is not None and is_null(sw)
-    ok = ok and isinstance(ar, ast.Call) and isinstance(ar.func, ast.Attribute) and ar.func.attr in ('pop', 'get') and isinstance(ar.func.value, ast.Name) \
-        and ar.func.value.id == kw and len(ar.args) == 2 and isinstance(ar.args[0], ast.Constant) and ar.args[0].value == 'archive' and is_null(ar.args[1])
+
+    def takes_given(e, need_default):
+        if not (isinstance(e, ast.Call) and isinstance(e.func, ast.Attribute) and e.func.attr in ('pop', 'get') and isinstance(e.func.value, ast.Name)
+                and e.func.value.id == kw and e.args and isinstance(e.args[0], ast.Constant) and e.args[0].value == 'archive'):
+            return isinstance(e, ast.Subscript) and isinstance(e.value, ast.Name) and e.value.id == kw and isinstance(e.slice, ast.Constant) \
+                and e.slice.value == 'archive' and not need_default
+        return (len(e.args) == 2 and is_null(e.args[1])) if need_default else len(e.args) in (1, 2)
+    arch_ok = ar is not None and takes_given(ar, True)
+    if ar is None:
+        # if 'archive' in kwds: self.__archive__ = kwds.pop('archive')  else: self.__archive__ = null_archive()
+        for st in init.node.body:
+            if isinstance(st, ast.If) and isinstance(st.test, ast.Compare) and len(st.test.ops) == 1 and isinstance(st.test.ops[0], (ast.In, ast.NotIn)) \
+                    and isinstance(st.test.left, ast.Constant) and st.test.left.value == 'archive' and isinstance(st.test.comparators[0], ast.Name) \
+                    and st.test.comparators[0].id == kw:
+                given, absent = (st.body, st.orelse) if isinstance(st.test.ops[0], ast.In) else (st.orelse, st.body)
+
+                def assigned(block):
+                    vals = [x.value for x in block if isinstance(x, ast.Assign) and any(isinstance(t, ast.Attribute) and t.attr == '__archive__' for t in x.targets)]
+                    return vals[-1] if vals else None
+                g, a_ = assigned(given), assigned(absent)
+                arch_ok = g is not None and a_ is not None and takes_given(g, False) and is_null(a_)
+    ok = ok and arch_ok
     ctx.ob('S-TOGGLE', 'cache.__init__ initial state', ok)
     if not ok:
         ctx.fail('S-TOGGLE', init.qual, 'initial state', 'cache.__init__ does not start with swap = null_archive() and archive = given-or-null', init.where)
